@@ -4,8 +4,8 @@ TLC side : spec/C08/C08_MPSCanon.tla (record arithmetic of canonicalize / swaps 
            sub-MPO gates / compress_site / measure / canonical queries / sampling, the `left_inds` shortcut,
            which tensors each method rewrites and which isometries it establishes) checked against
            RecordSound / RecordInRange / FlagSound / ConsumerSound for every history of bounded depth;
-           five self-test configurations (one deviation each: the two open known findings and three repaired ones) must FAIL.
-S->C     : behaviours simulated by TLC (model = the code as it is) are replayed on random MPS (bond 2-4,
+           five self-test configurations (one repaired deviation each) must FAIL.
+S->C     : behaviours simulated by TLC (model = the code as it is, Dev = {}) are replayed on random MPS (bond 2-4,
            phys 2-3, four dtypes) threading ONE info dict; every observation is judged by
            spec/C08/C08_Trace.tla and compared with the model state (NOTE:ModelDrift).
 C->S     : seeded random histories over the public API (L <= 6) and histories on exact product / GHZ / W
@@ -28,12 +28,11 @@ ACTIONS = ("LeftCanonizeSite", "RightCanonizeSite", "Canonicalize", "ShiftCentre
            "GateSubMPO", "GateMPO", "SwapSitesA", "SwapSiteToA", "CompressSiteA", "CompressA", "Normalize",
            "TensorNormalize", "MeasureA", "BondQuery", "Magnetization", "LocalCanonical", "SampleA",
            "CallerForget", "CallerCalc")
-# one named deviation each; the first, third and last are what the code did before the fix: commits
-# 9081c46d / fe668b26 / fb49fbf5, the other two are the open known findings
+# one named deviation each = what the code did before the corresponding fix: commit
 SELFTESTS = (("MC_dev_swap.cfg", "RecordSoundInv", "swap_sites_with_compress keeping canonicalize's record for absorb='both' (fixed in 9081c46d)"),
-             ("MC_dev_sample.cfg", "RecordSoundInv", "sample / sample_configuration write the record of a dropped copy (KF-C08-2)"),
+             ("MC_dev_sample.cfg", "RecordSoundInv", "sample / sample_configuration writing the record of a dropped copy (fixed in 6a956e6e)"),
              ("MC_dev_measure.cfg", ("RecordSoundInv", "RecordInRangeInv"), "measure(L-1, remove=True) keeping record (L-1, L-1) (fixed in fe668b26)"),
-             ("MC_dev_outcome.cfg", "RecordSoundInv", "measure(get='outcome') writes the record of a dropped copy (KF-C08-4)"),
+             ("MC_dev_outcome.cfg", "RecordSoundInv", "measure(get='outcome') writing the record of a dropped copy (fixed in 761424b3)"),
              ("MC_dev_tnorm.cfg", "FlagSoundInv", "Tensor.normalize keeping the left_inds claim (fixed in fb49fbf5)"))
 SUBMPO_METHODS = ["direct", "direct", "dm", "zipup", "sdc", "fit", "src", "srcmps"]
 
@@ -123,7 +122,15 @@ def replay_behaviour(states, rng, tid):
         act = st["act"]
         if act["op"] == "calc":
             exactrec = False          # from here on the real detector may see more isometries than the model guarantees
-        r = s.do(_op_of(act, rng, s))
+        op = _op_of(act, rng, s)
+        if op["ev"] == "shift":
+            # the caller passes the centre that the REAL record names; if the model has drifted from the code and the
+            # real record is no single site (or already the target) the behaviour cannot be followed any further
+            real = U.rec_of(s.info)
+            if real[0] < 0 or real[0] != real[1] or real[0] == op["new"]:
+                break
+            op["cur"] = real[0]
+        r = s.do(op)
         r["model"] = _model_of(st, exactrec)
         if r["exc"] or s.dead:
             break
@@ -466,7 +473,8 @@ def run(ctx):
     for k, bh in enumerate(behs):
         recs += replay_behaviour(bh, rng, k)
     ctx.sample({"replayed_behaviour": [s["act"] for s in behs[0]]})
-    fails = ctx.validate("C08_Trace", "Trace.cfg", recs, name="replay", ntraces=len(behs))
+    for r in recs:
+        r["src"] = "replay"
     ctx.extra["replayed_behaviours"] = len(behs)
     ctx.extra["replayed_steps"] = len(recs)
 
@@ -476,7 +484,8 @@ def run(ctx):
     for k in range(nt):
         wrecs += random_history(ctx.seed * 1000003 + k, 100000 + k, ln)
     ctx.sample({"history": [(r["ev"], {a: b for a, b in r["args"].items() if a != "z"}, r["rec"]) for r in wrecs[:13]]})
-    fails += ctx.validate("C08_Trace", "Trace.cfg", wrecs, name="walk", ntraces=nt)
+    for r in wrecs:
+        r["src"] = "walk"
 
     # 4. C->S on exact states: TLC recomputes the query results from C08_Defs
     ne, le = (60, 10) if quick else (900, 12)
@@ -485,14 +494,19 @@ def run(ctx):
         xrecs += exact_history(ctx.seed * 7000003 + 17 + k, 200000 + k, le)
     ctx.sample({"exact_history": [(r["ev"], {a: b for a, b in r["args"].items() if a != "z"}, {a: b for a, b in r["q"].items() if a != "z"})
                                   for r in xrecs[:8]]})
-    fails += ctx.validate("C08_Trace", "Trace.cfg", xrecs, name="exact", ntraces=ne)
+    for r in xrecs:
+        r["src"] = "exact"
     # 5. C->S: circuits (CircuitMPS / CircuitPermMPS) threading their own record through gates and consumers
     nc, lc = (70, 10) if quick else (900, 12)
     crecs = []
     for k in range(nc):
         crecs += circuit_history(ctx.seed * 9000011 + 29 + k, 300000 + k, lc)
     ctx.sample({"circuit_history": [(r["ev"], {a: b for a, b in r["args"].items() if a != "z"}, r["rec"]) for r in crecs[:10]]})
-    fails += ctx.validate("C08_Trace", "Trace.cfg", crecs, name="circuit", ntraces=nc)
+    for r in crecs:
+        r["src"] = "circuit"
+    # one TLC start judges all four sources (records of one history stay together; `src` names the source)
+    fails = ctx.validate("C08_Trace", "Trace.cfg", recs + wrecs + xrecs + crecs, name="histories", ntraces=len(behs) + nt + ne + nc)
+    ctx.extra["records_by_source"] = {"replay": len(recs), "walk": len(wrecs), "exact": len(xrecs), "circuit": len(crecs)}
     ctx.extra["circuit_steps"] = len(crecs)
     ctx.extra["walk_steps"] = len(wrecs)
     ctx.extra["exact_steps"] = len(xrecs)
